@@ -76,6 +76,15 @@ def triple_member(f, e, depth=0):
             return True
         if isinstance(v, ast.Call) and call_name(v) in ("np.transpose",):
             return True
+        # the same items, each converted element-wise: (np.array(m) for m in zip(*rows))
+        if isinstance(v, (ast.GeneratorExp, ast.ListComp)) and len(v.generators) == 1 and not v.generators[0].ifs and isinstance(v.generators[0].target, ast.Name):
+            el = v.elt
+            while isinstance(el, ast.Call) and call_name(el) in ("np.array", "np.asarray", "list", "tuple", "np.asanyarray") and el.args:
+                el = el.args[0]
+            if isinstance(el, ast.Name) and el.id == v.generators[0].target.id:
+                return is_triple_source(v.generators[0].iter)
+        if isinstance(v, ast.Call) and call_name(v) in ("tuple", "list") and len(v.args) == 1:
+            return is_triple_source(v.args[0])
         return False
 
     def strip(v):
